@@ -39,6 +39,7 @@ import (
 	"strconv"
 	"strings"
 	gotime "time"
+	"unicode/utf16"
 
 	"go.mongodb.org/mongo-driver/v2/bson"
 	"google.golang.org/protobuf/proto"
@@ -50,7 +51,9 @@ import (
 	"github.com/yorkie-team/yorkie/pkg/document/change"
 	"github.com/yorkie-team/yorkie/pkg/document/crdt"
 	"github.com/yorkie-team/yorkie/pkg/document/json"
+	"github.com/yorkie-team/yorkie/pkg/document/operations"
 	"github.com/yorkie-team/yorkie/pkg/document/presence"
+	innerpresence "github.com/yorkie-team/yorkie/pkg/document/presence/inner"
 	"github.com/yorkie-team/yorkie/pkg/document/time"
 	"github.com/yorkie-team/yorkie/pkg/key"
 	"github.com/yorkie-team/yorkie/server/backend/database"
@@ -99,26 +102,42 @@ type fuzzClient struct {
 	// Marshal() of the author right after producing the local change with a given clientSeq, and
 	// which of those changes were emitted by Undo/Redo
 	states   map[uint32]string
+	idents   map[uint32]string
+	orders   map[uint32]string
 	undoSeqs map[uint32]bool
 	// first local change after which the shadow stopped agreeing with the recorded author state
 	staleBefore    []string
+	staleKeys      map[string]bool
 	silentUndo     string
 	preAuthor      *document.InternalDocument
 	preShadow      *document.InternalDocument
 	preResp        *api.ChangePack
 	firstBad       uint32
 	firstBadByUndo bool
+	// same for the set of element identities (createdAt keys) in the graph
+	firstIdentBad       uint32
+	firstIdentBadByUndo bool
+	// same for what Marshal() does not show: the node order inside Text / Tree elements, tombstones
+	// included (nodeOrder), and the removedAt of element tombstones (tombstones)
+	firstOrderBad       uint32
+	firstOrderBadByUndo bool
+	// clientSeq of the last local change whose operations were looked at one by one (observePending)
+	pendingObserved uint32
 }
 
 type fuzzHist struct {
-	r        *rand.Rand
-	class    string
-	gc       bool
-	clients  []*fuzzClient
-	log      []*change.Change // wire-decoded, server seq set
-	logPB    []*api.Change    // the same changes as protobuf (fresh decodes for the continuation oracle)
-	sWire    *document.InternalDocument
-	sStore   *document.InternalDocument
+	r       *rand.Rand
+	class   string
+	gc      bool
+	clients []*fuzzClient
+	log     []*change.Change // wire-decoded, server seq set
+	logPB   []*api.Change    // the same changes as protobuf (fresh decodes for the continuation oracle)
+	sWire   *document.InternalDocument
+	sStore  *document.InternalDocument
+	// sObs takes no part in any oracle: it executes the log one OPERATION at a time (server order) and
+	// is looked at after each, so that evidence which exists only between two operations of one change
+	// (an attribute-tombstone id carried by two owners) is seen
+	sObs     *document.InternalDocument
 	seeds    *pbSeeds
 	dead     string
 	styled   bool // a text Style happened
@@ -134,12 +153,25 @@ type fuzzHist struct {
 	restoredNodes map[string]bool
 	// attribute-tombstone ids seen on more than one owner at some observed point
 	sharedIDs map[string]bool
+	// GC off: elements that left a client's graph (createdAt key -> how)
+	vanished map[string]string
+	// the HIST line that generated this history (debug aid)
+	line string
+	// style operations seen: "<container createdAt key>/<attribute key>" -> tickets of the operations
+	// that SET the attribute; executedAt key -> ticket of the operations that REMOVE attributes
+	styleSets    map[string][]*time.Ticket
+	styleRemoves map[string]*time.Ticket
+	// "<container createdAt key>/<attribute key>" -> tickets of the operations that REMOVE the attribute
+	styleRems map[string][]*time.Ticket
+	// createdAt key -> createdAt key of the container an element was seen in at some observed point
+	parentOf map[string]string
 }
 
 func newHist(seed int64, class string, nClients int, gc bool) *fuzzHist {
 	h := &fuzzHist{r: rand.New(rand.NewSource(seed)), class: class, gc: gc,
 		sWire:  document.NewInternalDocument(pbDocKey),
-		sStore: document.NewInternalDocument(pbDocKey), seeds: &pbSeeds{pool: msgPool{}}, replaced: map[string]bool{}, restoredVals: map[string]bool{}, restoredNodes: map[string]bool{}, sharedIDs: map[string]bool{}}
+		sStore: document.NewInternalDocument(pbDocKey), sObs: document.NewInternalDocument(pbDocKey), seeds: &pbSeeds{pool: msgPool{}}, replaced: map[string]bool{}, restoredVals: map[string]bool{}, restoredNodes: map[string]bool{}, sharedIDs: map[string]bool{}, vanished: map[string]string{},
+		styleSets: map[string][]*time.Ticket{}, styleRemoves: map[string]*time.Ticket{}, styleRems: map[string][]*time.Ticket{}, parentOf: map[string]string{}}
 	for i := 0; i < nClients; i++ {
 		var a time.ActorID
 		a[11] = byte(i + 1)
@@ -154,7 +186,7 @@ func newHist(seed int64, class string, nClients int, gc bool) *fuzzHist {
 		}()
 		sh := document.NewInternalDocument(pbDocKey)
 		h.clients = append(h.clients, &fuzzClient{doc: d, actor: a, lastVV: time.NewVersionVector(), shadow: sh,
-			states: map[uint32]string{}, undoSeqs: map[uint32]bool{}})
+			states: map[uint32]string{}, idents: map[uint32]string{}, orders: map[uint32]string{}, undoSeqs: map[uint32]bool{}})
 	}
 	return h
 }
@@ -174,6 +206,35 @@ func (h *fuzzHist) attrs() map[string]string {
 		m["b"] = "1"
 	}
 	return m
+}
+
+// astralAsReplacement replaces every character outside the BMP by two U+FFFD.
+func astralAsReplacement(s string) string {
+	var b strings.Builder
+	for _, c := range s {
+		if c >= 0x10000 {
+			b.WriteString("\uFFFD\uFFFD")
+		} else {
+			b.WriteRune(c)
+		}
+	}
+	return b.String()
+}
+
+// snapU16 moves a UTF-16 offset that falls inside a surrogate pair down to the pair's start.
+func snapU16(s string, off int) int {
+	n := 0
+	for _, c := range s {
+		w := 1
+		if c >= 0x10000 {
+			w = 2
+		}
+		if off > n && off < n+w {
+			return n
+		}
+		n += w
+	}
+	return off
 }
 
 func u16len(s string) int {
@@ -244,8 +305,53 @@ func pbTreeInit() json.TreeNode {
 }
 
 // edit performs one random edit on the document of a client.
+// treeSplitEdit (class E): tree edits that SPLIT (splitLevel 1 or 2) and insert content in the same
+// operation - the originating replica issues the tickets of the split-off elements and ships them
+// (split_tickets); a receiver that had to reconstruct them would give the new elements other ids -
+// followed by edits addressed inside the split-off element.  Invalid positions make the updater fail
+// and abandon the history.
+func (h *fuzzHist) treeSplitEdit(root *json.Object) {
+	r := h.r
+	t := root.GetTree("r")
+	if t == nil {
+		root.SetNewTree("r", pbTreeInit())
+		return
+	}
+	n := t.Len()
+	if n < 4 {
+		t.Edit(0, 0, &json.TreeNode{Type: "p", Children: []json.TreeNode{{Type: "text", Value: "zz"}}}, 0)
+		return
+	}
+	switch x := r.Intn(10); {
+	case x < 3:
+		// split the paragraph and put text at the split point
+		i := 1 + r.Intn(n-1)
+		t.Edit(i, i, &json.TreeNode{Type: "text", Value: "q"}, 1)
+	case x < 5:
+		// split and put an element with a child in between
+		i := 1 + r.Intn(n-1)
+		t.Edit(i, i, &json.TreeNode{Type: "i", Children: []json.TreeNode{{Type: "text", Value: "cd"}}}, 1)
+	case x < 6:
+		// something two levels deep, so that splitLevel 2 has two elements to split
+		t.Edit(0, 0, &json.TreeNode{Type: "p", Children: []json.TreeNode{{Type: "b", Children: []json.TreeNode{{Type: "text", Value: "xyz"}}}}}, 0)
+	case x < 7:
+		i := 1 + r.Intn(n-1)
+		t.Edit(i, i, &json.TreeNode{Type: "text", Value: "w"}, 2)
+	case x < 9:
+		// just in front of the closing tag of the last top-level element (the split-off element when the
+		// last edit split there)
+		t.Edit(n-1, n-1, &json.TreeNode{Type: "text", Value: "!"}, 0)
+	default:
+		t.Style(0, 1+r.Intn(n-1), h.attrs())
+	}
+}
+
 func (h *fuzzHist) edit(root *json.Object, p *presence.Presence, actor string) {
 	r := h.r
+	if h.class == "E" && r.Intn(100) < 55 {
+		h.treeSplitEdit(root)
+		return
+	}
 	switch k := r.Intn(100); {
 	case k < 12:
 		h.setPrim(root, fmt.Sprintf("k%d", r.Intn(4)))
@@ -317,9 +423,15 @@ func (h *fuzzHist) edit(root *json.Object, p *presence.Presence, actor string) {
 			root.SetNewText("t").Edit(0, 0, "hello")
 			return
 		}
-		n := u16len(t.String())
+		str := t.String()
+		n := u16len(str)
 		from := r.Intn(n + 1)
 		to := from + r.Intn(n-from+1)
+		// never inside a surrogate pair: splitting a text node there replaces the character by two
+		// U+FFFD on that replica only (a C07 matter, not a codec one); the PRNG stream is unchanged
+		if os.Getenv("PBFUZZ_NOSNAP") == "" {
+			from, to = snapU16(str, from), snapU16(str, to)
+		}
 		switch x := r.Intn(10); {
 		case x < 4:
 			t.Edit(from, from, h.word())
@@ -431,12 +543,89 @@ func (h *fuzzHist) update(c *Ctx, i int) {
 	}
 }
 
+// identities is the sorted list of createdAt keys of every element reachable in a graph.
+func identities(root *crdt.Object) string {
+	var ks []string
+	root.Descendants(func(e crdt.Element, _ crdt.Container) bool {
+		ks = append(ks, e.CreatedAt().Key())
+		return false
+	})
+	sort.Strings(ks)
+	return strings.Join(ks, ",")
+}
+
+// nodeOrder lists, for every Text and Tree in a graph, the sequence of its nodes INCLUDING tombstones
+// (createdAt, offset range, removed or not); contiguous pieces of one inserted run are merged, so where
+// a run happens to be split does not show.  Two replicas with equal Marshal() can differ here (the
+// order of tombstones is invisible until something un-tombstones them).
+func nodeOrder(root *crdt.Object) string {
+	var parts []string
+	root.Descendants(func(e crdt.Element, _ crdt.Container) bool {
+		type run struct {
+			key      string
+			from, to int
+			removed  bool
+		}
+		var runs []run
+		add := func(key string, off, n int, removed bool) {
+			if k := len(runs) - 1; k >= 0 && runs[k].key == key && runs[k].to == off && runs[k].removed == removed {
+				runs[k].to = off + n
+				return
+			}
+			runs = append(runs, run{key, off, off + n, removed})
+		}
+		switch x := e.(type) {
+		case *crdt.Text:
+			for _, n := range x.Nodes() {
+				if n.Value() == nil {
+					continue
+				}
+				add(n.ID().CreatedAt().Key(), n.ID().Offset(), n.Value().Len(), n.RemovedAt() != nil)
+			}
+		case *crdt.Tree:
+			for _, n := range x.Nodes() {
+				l := 1
+				if n.IsText() {
+					l = len(utf16.Encode([]rune(n.Value)))
+				}
+				add(n.ID().CreatedAt.Key(), n.ID().Offset, l, n.RemovedAt() != nil)
+			}
+		default:
+			return false
+		}
+		var b strings.Builder
+		b.WriteString(e.CreatedAt().Key() + "=")
+		for _, r := range runs {
+			fmt.Fprintf(&b, "%s[%d,%d)%v ", r.key, r.from, r.to, r.removed)
+		}
+		parts = append(parts, b.String())
+		return false
+	})
+	sort.Strings(parts)
+	return strings.Join(parts, "\n")
+}
+
+// tombstones lists the removed elements of a graph with their removedAt (invisible in Marshal()).
+func tombstones(root *crdt.Object) string {
+	var ks []string
+	root.Descendants(func(e crdt.Element, _ crdt.Container) bool {
+		if e.RemovedAt() != nil {
+			ks = append(ks, e.CreatedAt().Key()+"@"+e.RemovedAt().Key())
+		}
+		return false
+	})
+	sort.Strings(ks)
+	return strings.Join(ks, ",")
+}
+
 // record keeps what the author shows right after its newest local change.
 func (h *fuzzHist) record(cl *fuzzClient, byUndo bool) {
 	pk := cl.doc.CreateChangePack()
 	if n := len(pk.Changes); n > 0 {
 		cs := pk.Changes[n-1].ClientSeq()
 		cl.states[cs] = cl.doc.Marshal()
+		cl.idents[cs] = identities(cl.doc.RootObject())
+		cl.orders[cs] = nodeOrder(cl.doc.RootObject()) + "\n" + tombstones(cl.doc.RootObject())
 		if byUndo {
 			cl.undoSeqs[cs] = true
 		}
@@ -596,6 +785,58 @@ func (h *fuzzHist) mismatch(c *Ctx, what, a, b string) {
 	c.Oracle("%s", strings.ToValidUTF8(fmt.Sprintf("%s%s: expected %s got %s", tag, what, a, b), "?"))
 }
 
+// observeByOperation executes changes on d one OPERATION at a time and looks at d after each
+// (evidence only; d takes no part in any oracle).
+func (h *fuzzHist) observeByOperation(d *document.InternalDocument, changes []*change.Change) bool {
+	for _, ch := range changes {
+		ops := ch.Operations()
+		if len(ops) <= 1 {
+			if _, _, e := d.ApplyChangesForReplay(ch); e != nil {
+				return false
+			}
+			h.observe(d.RootObject())
+			continue
+		}
+		for i, op := range ops {
+			var pc *innerpresence.Change
+			if i == 0 {
+				pc = ch.PresenceChange()
+			}
+			sub := change.New(ch.ID(), ch.Message(), []operations.Operation{op}, pc)
+			if _, _, e := d.ApplyChangesForReplay(sub); e != nil {
+				return false
+			}
+			h.observe(d.RootObject())
+		}
+	}
+	return true
+}
+
+// observePending: local changes a client has not pushed yet, one operation at a time on a copy of the
+// client's shadow (fresh decodes from the wire: nothing is shared with the author's document).
+func (h *fuzzHist) observePending() {
+	for _, cl := range h.clients {
+		pack := cl.doc.CreateChangePack()
+		if len(pack.Changes) == 0 {
+			continue
+		}
+		last := pack.Changes[len(pack.Changes)-1].ClientSeq()
+		if cl.pendingObserved >= last {
+			continue
+		}
+		cl.pendingObserved = last
+		_, w, err := throughWire(pack)
+		if err != nil {
+			continue
+		}
+		d, err := cl.shadow.DeepCopy()
+		if err != nil {
+			continue
+		}
+		guardRun(pbTimeout, func() { h.observeByOperation(d, w.Changes) })
+	}
+}
+
 // snapOracle: BytesToSnapshot(SnapshotToBytes(root)) marshals identically, keeps GarbageLen and
 // presences, and re-encodes to an equal protobuf.  Differences are classified against the
 // known CRDT-layer defects by their *shape* (see classify below); anything else is a violation.
@@ -651,6 +892,7 @@ func (h *fuzzHist) snapOracle(c *Ctx, who string, live *crdt.Root, pres map[stri
 		}
 	}
 	h.notePending()
+	h.observePending()
 	rep := h.analyseSnapshot(live, obj, pa, pb)
 	m1, m2 := root.Marshal(), obj.Marshal()
 	if m1 != m2 {
@@ -665,9 +907,14 @@ func (h *fuzzHist) snapOracle(c *Ctx, who string, live *crdt.Root, pres map[stri
 	if gl := crdt.NewRoot(obj).GarbageLen(); gl != garbage && len(rep.by) == 0 {
 		rep.add("", fmt.Sprintf("GarbageLen %d became %d and no differing item was found", garbage, gl))
 	}
-	if f, ok := rep.by[""]; ok && os.Getenv("PBFUZZ_DUMP") == "snap" && !h.dumped {
+	dumpF, dumpIt := rep.by[""], os.Getenv("PBFUZZ_DUMP") == "snap"
+	if t := os.Getenv("PBFUZZ_DUMPTAG"); t != "" {
+		// debug aid: the same dump for the items of one listed finding
+		dumpF, dumpIt = rep.by[t], true
+	}
+	if f := dumpF; f != nil && dumpIt && !h.dumped {
 		h.dumped = true
-		fmt.Fprintf(os.Stderr, "DUMP %s unexplained: %s\nLIVE MARSHAL %s\n", who, strings.Join(f.items, "; "), m1)
+		fmt.Fprintf(os.Stderr, "DUMP %s | %s unexplained: %s\nLIVE MARSHAL %s\n", h.line, who, strings.Join(f.items, "; "), m1)
 		gv := graphView(live.Object())
 		lreg := bookView(live).inst
 		keyOf := map[string]string{}
@@ -676,6 +923,47 @@ func (h *fuzzHist) snapOracle(c *Ctx, who string, live *crdt.Root, pres map[stri
 		}
 		for k, e := range lreg {
 			keyOf[e.CreatedAt().ToTestString()] = k
+		}
+		for _, it := range f.items {
+			if strings.HasPrefix(it, "pair-") {
+				if i := strings.Index(it, ":"); i > 0 {
+					id := it[i+1:]
+					if j := strings.Index(id, " ["); j > 0 {
+						id = id[:j]
+					}
+					gvl := graphView(live.Object())
+					for k, pid := range gvl.pairs {
+						if pid == id {
+							fmt.Fprintf(os.Stderr, "   HELD BY %s\n", k)
+							for _, l := range h.opsMentioning(gvl.pairIn[k]) {
+								fmt.Fprintf(os.Stderr, "      holder element: %s\n", l)
+							}
+							for x, n := gvl.pairIn[k], 0; n < 8; n++ {
+								pk, ok := h.parentOf[x]
+								if !ok {
+									break
+								}
+								fmt.Fprintf(os.Stderr, "      seen inside %s (restored=%v)\n", pk, h.restoredVals[pk])
+								for _, l := range h.opsMentioning(pk) {
+									fmt.Fprintf(os.Stderr, "         %s\n", l)
+								}
+								x = pk
+							}
+						}
+					}
+					if p, ok := registeredPairs(live)[id]; ok {
+						fmt.Fprintf(os.Stderr, "   REGISTERED %s: %s\n", id, pairShape(ownersOf(live.Object()), p).desc)
+					}
+				}
+				if i := strings.Index(it, ":"); i > 0 && !isAttrID(it[i+1:]) {
+					for _, l := range locateNode(live.Object(), it[i+1:]) {
+						fmt.Fprintf(os.Stderr, "   LIVE GRAPH %s\n", l)
+					}
+					for _, l := range locateNode(obj, it[i+1:]) {
+						fmt.Fprintf(os.Stderr, "   DECODED    %s\n", l)
+					}
+				}
+			}
 		}
 		for _, it := range f.items {
 			if strings.HasPrefix(it, "pair-") {
@@ -720,6 +1008,23 @@ func (h *fuzzHist) emit(c *Ctx, where string, rep *snapReport) {
 			items = append(append([]string{}, items[:6]...), fmt.Sprintf("… %d more", len(f.items)-6))
 		}
 		prefix := ""
+		if t == "" {
+			// unexplained: count what kind of item it holds
+			kinds := map[string]bool{}
+			for _, it := range f.items {
+				k := it
+				if i := strings.Index(k, ":"); i > 0 {
+					k = k[:i]
+				}
+				kinds[k] = true
+			}
+			for k := range kinds {
+				c.Count("unexplained-item:" + k)
+			}
+			if os.Getenv("PBFUZZ_DUMP") == "n7" {
+				fmt.Fprintf(os.Stderr, "N7 %s | %s | %s\n", h.line, where, strings.Join(f.items, "; "))
+			}
+		}
 		if t != "" {
 			prefix = "KNOWN[" + t + "] "
 			c.Count("oracle:KNOWN[" + t + "]")
@@ -863,6 +1168,11 @@ func (h *fuzzHist) sync(c *Ctx, i int) {
 		pbc.Id.ServerSeq = int64(len(h.log) + 1)
 		h.logPB = append(h.logPB, pbc)
 		h.noteOps([]*change.Change{ch})
+		for _, op := range ch.Operations() {
+			if te, ok := op.(*operations.TreeEdit); ok && te.SplitLevel() > 0 && len(te.Contents()) > 0 {
+				c.Count(fmt.Sprintf("shape:tree-edit-split-level-%d-with-content", te.SplitLevel()))
+			}
+		}
 		ch.SetServerSeq(int64(len(h.log) + 1))
 		h.log = append(h.log, ch)
 		st, raw, err := storedRoundTrip(ch)
@@ -889,22 +1199,68 @@ func (h *fuzzHist) sync(c *Ctx, i int) {
 		h.kill(c, "wire-error")
 		return
 	}
+	if reqO, err := converter.FromChangePack(proto.Clone(pbReq).(*api.ChangePack)); err == nil && h.sObs != nil {
+		ok := false
+		g := guardRun(pbTimeout, func() { ok = h.observeByOperation(h.sObs, reqO.Changes) })
+		if g.bad() || !ok {
+			h.sObs = nil
+		}
+	}
 	var e1, e2, e3 error
+	hiddenDiff := ""
 	g := guardRun(pbTimeout, func() {
 		// one change at a time, against what the author showed right after producing it
 		for _, ch := range reqS.Changes {
 			if _, _, e1 = cl.shadow.ApplyChangesForReplay(ch); e1 != nil {
 				break
 			}
+			h.observe(cl.shadow.RootObject())
 			cs := ch.ClientSeq()
 			if want, ok := cl.states[cs]; ok {
 				if cl.firstBad == 0 && mergeTextNodes(want) != mergeTextNodes(cl.shadow.Marshal()) {
 					cl.firstBad, cl.firstBadByUndo = cs, cl.undoSeqs[cs]
+					if os.Getenv("PBFUZZ_DUMP") == "firstbad" {
+						fmt.Fprintf(os.Stderr, "FIRSTBAD cs=%d undo=%v\n  %s\nAUTHOR %s\nSHADOW %s\n", cs, cl.undoSeqs[cs], firstDiff(want, cl.shadow.Marshal()), want, cl.shadow.Marshal())
+						for _, op := range ch.Operations() {
+							fmt.Fprintf(os.Stderr, "  OP %T %s\n", op, op.ExecutedAt().ToTestString())
+						}
+					}
+				}
+				// the same elements (by createdAt, tombstones included)?  Content can agree while one
+				// side has lost an element that later operations of peers still address
+				if cl.firstIdentBad == 0 && cl.idents[cs] != identities(cl.shadow.RootObject()) {
+					cl.firstIdentBad, cl.firstIdentBadByUndo = cs, cl.undoSeqs[cs]
+				}
+				if got := nodeOrder(cl.shadow.RootObject()) + "\n" + tombstones(cl.shadow.RootObject()); cl.firstOrderBad == 0 && cl.orders[cs] != got {
+					cl.firstOrderBad, cl.firstOrderBadByUndo = cs, cl.undoSeqs[cs]
+					if cl.undoSeqs[cs] {
+						c.Count("note:hidden-state-first-differs-at-an-undo-change")
+					} else {
+						c.Count("note:hidden-state-first-differs-at-an-ordinary-change")
+						if cl.firstBad == 0 && cl.firstIdentBad == 0 {
+							// ORACLE: nothing differed so far, the change was not emitted by undo/redo, and the
+							// same change executed from the wire leaves other node ids / another node order
+							// (tombstones included) or other removedAt than it left on its author
+							hiddenDiff = fmt.Sprintf("wire-vs-direct-hidden-state: after the ordinary local change clientSeq %d the author and its wire shadow "+
+								"show the same content but differ in what Marshal() does not show (ids and order of the nodes inside Text/Tree, "+
+								"tombstones included; removedAt of element tombstones): %s", cs, firstDiff(cl.orders[cs], got))
+						}
+						if os.Getenv("PBFUZZ_DUMP") == "hidden" {
+							fmt.Fprintf(os.Stderr, "HIDDEN %s cs=%d\nAUTHOR %s\nSHADOW %s\n", h.line, cs, cl.orders[cs], nodeOrder(cl.shadow.RootObject())+"\n"+tombstones(cl.shadow.RootObject()))
+						}
+					}
 				}
 				delete(cl.states, cs)
+				delete(cl.idents, cs)
+				delete(cl.orders, cs)
 			}
 		}
-		_, _, e2 = h.sWire.ApplyChangesForReplay(reqW.Changes...)
+		for _, ch := range reqW.Changes {
+			if _, _, e2 = h.sWire.ApplyChangesForReplay(ch); e2 != nil {
+				break
+			}
+			h.observe(h.sWire.RootObject())
+		}
 		_, _, e3 = h.sStore.ApplyChangesForReplay(stored...)
 	})
 	if g.bad() {
@@ -920,11 +1276,21 @@ func (h *fuzzHist) sync(c *Ctx, i int) {
 		h.kill(c, "server-apply-error")
 		return
 	}
+	if hiddenDiff != "" {
+		c.Count("oracle:wire-vs-direct-hidden-state")
+		c.Oracle("%s", strings.ReplaceAll(strings.ToValidUTF8(hiddenDiff, "?"), "\n", " | "))
+		h.kill(c, "wire-vs-direct-hidden-state")
+		return
+	}
 	if len(req.Changes) > 0 {
 		c.Count("oracle-run:pack")
 		h.lastPack = pbReq
 		h.compareAuthor(c, cl)
 		compareReplicas(h, c, "stored-vs-wire", h.sWire, h.sStore)
+		if h.dead != "" {
+			// author and shadow already differ: whatever the response does to them says nothing more
+			return
+		}
 	}
 	cl.lastVV = req.VersionVector.DeepCopy()
 	// --- response
@@ -979,12 +1345,27 @@ func (h *fuzzHist) sync(c *Ctx, i int) {
 	}
 	// evidence for what a purge may do: stale registrations before the response, and copies of both
 	// replicas to replay the response on without the GC step
-	cl.staleBefore = append(staleRegistrations(cl.doc.InternalDocument().Root()), staleRegistrations(cl.shadow.Root())...)
+	sa, ka := staleRegistrationKeys(cl.doc.InternalDocument().Root())
+	ss, ks := staleRegistrationKeys(cl.shadow.Root())
+	cl.staleBefore = append(sa, ss...)
+	cl.staleKeys = ka
+	for k := range ks {
+		cl.staleKeys[k] = true
+	}
 	cl.preAuthor, cl.preShadow, cl.preResp = nil, nil, nil
 	if h.undone && h.gc {
 		cl.preAuthor, _ = cl.doc.InternalDocument().DeepCopy()
 		cl.preShadow, _ = cl.shadow.DeepCopy()
 		cl.preResp = pbResp
+	}
+	// evidence only: the response one operation at a time on a copy of the shadow (this client's order
+	// of execution differs from the server's; what exists only between two remote changes is seen here)
+	if len(sel) > 0 {
+		if d, e := cl.shadow.DeepCopy(); e == nil {
+			if respO, e := converter.FromChangePack(proto.Clone(pbResp).(*api.ChangePack)); e == nil {
+				guardRun(pbTimeout, func() { h.observeByOperation(d, respO.Changes) })
+			}
+		}
 	}
 	g = guardRun(pbTimeout, func() {
 		err = cl.doc.ApplyChangePack(respW)
@@ -1011,11 +1392,70 @@ func (h *fuzzHist) sync(c *Ctx, i int) {
 					}
 				}
 			}
-			c.Count("oracle:response-applicability")
+			tag := ""
+			if why := h.detachedTarget(cl, pbResp); why != "" {
+				// an operation of the response addresses an element that exists in neither graph any more
+				// (an undo/redo restored its container as a copy that lacks what peers had created inside
+				// it); one registry still holds the detached element and takes the operation, the other -
+				// and every replica rebuilt from the log or a snapshot - rejects it
+				tag = "KNOWN[c15-operation-addresses-element-dropped-by-restore] [" + why + "] "
+			} else if cl.firstIdentBad != 0 && cl.firstIdentBadByUndo {
+				// the author's graph and its shadow's stopped holding the same elements exactly at a change
+				// emitted by Undo/Redo (what the undo did locally and what the emitted change does from the
+				// wire differ in which elements - tombstones included - exist); an operation of a peer that
+				// addresses such an element now applies on one of them only
+				tag = fmt.Sprintf("KNOWN[c15-undo-local-vs-remote-path] (element identities first differ at the undo/redo change clientSeq %d) ", cl.firstIdentBad)
+			} else if cl.firstOrderBad != 0 && cl.firstOrderBadByUndo {
+				tag = fmt.Sprintf("KNOWN[c15-undo-local-vs-remote-path] (what Marshal() does not show - node order inside a Text/Tree incl. tombstones, removedAt of element tombstones - first differed at the undo/redo change clientSeq %d) ", cl.firstOrderBad)
+			} else if cl.firstBad != 0 && cl.firstBadByUndo {
+				// the same for content: author and shadow first showed different content right after a change
+				// emitted by Undo/Redo; later changes made the two Marshal() strings agree again (so the
+				// request-side comparison passed) while text / tree nodes inside still differ, and an
+				// operation of a peer that addresses such a node applies on one of them only
+				tag = fmt.Sprintf("KNOWN[c15-undo-local-vs-remote-path] (content first differed at the undo/redo change clientSeq %d and agreed again later) ", cl.firstBad)
+			}
+			c.Count("oracle:" + strings.TrimSpace(strings.Split(strings.Split(tag, " (")[0], " [")[0]) + "response-applicability")
 			if os.Getenv("PBFUZZ_DUMP") == "wire" {
+				{
+					a, b := strings.Split(identities(cl.doc.RootObject()), ","), strings.Split(identities(cl.shadow.RootObject()), ",")
+					ma, mb := map[string]bool{}, map[string]bool{}
+					for _, x := range a {
+						ma[x] = true
+					}
+					for _, x := range b {
+						mb[x] = true
+					}
+					for x := range ma {
+						if !mb[x] {
+							fmt.Fprintf(os.Stderr, "ONLY AUTHOR GRAPH %s\n", x)
+						}
+					}
+					for x := range mb {
+						if !ma[x] {
+							fmt.Fprintf(os.Stderr, "ONLY SHADOW GRAPH %s\n", x)
+						}
+					}
+				}
+				fmt.Fprintf(os.Stderr, "VANISHED %v\nfirstIdentBad %d byUndo %v firstBad %d\n", h.vanished, cl.firstIdentBad, cl.firstIdentBadByUndo, cl.firstBad)
+				fmt.Fprintf(os.Stderr, "UNREG author %v\nUNREG shadow %v\n", unregisteredInGraph(cl.doc.InternalDocument().Root()), unregisteredInGraph(cl.shadow.Root()))
+				fmt.Fprintf(os.Stderr, "DUP author %v\nDUP shadow %v\n", duplicateCreatedAt(cl.doc.RootObject()), duplicateCreatedAt(cl.shadow.RootObject()))
+				if rc, e := cl.doc.InternalDocument().DeepCopy(); e == nil {
+					if r3, e := converter.FromChangePack(proto.Clone(pbResp).(*api.ChangePack)); e == nil {
+						for k, ch := range r3.Changes {
+							if _, _, e := rc.ApplyChangesForReplay(ch); e != nil {
+								fmt.Fprintf(os.Stderr, "FAILING CHANGE %d: %v\n%s\n", k, e, protoTextLong(pbResp.Changes[k]))
+								for _, op := range ch.Operations() {
+									pe := rc.Root().FindByCreatedAt(op.ParentCreatedAt())
+									fmt.Fprintf(os.Stderr, "  op %T parent %s -> %T\n", op, op.ParentCreatedAt().ToTestString(), pe)
+								}
+								break
+							}
+						}
+					}
+				}
 				fmt.Fprintf(os.Stderr, "DUMP response-applicability client=%d gc=%v err=%v\nRESPONSE %s\nROOT  %s\nCLONE %s\n", i, h.gc, err, protoTextLong(pbResp), rootBefore, cloneBefore)
 			}
-			c.Oracle("author and its wire shadow disagree on applicability of a response: direct=%v wire=%v%s", err, errS, detail)
+			c.Oracle("%sauthor and its wire shadow disagree on applicability of a response: direct=%v wire=%v%s", tag, err, errS, detail)
 		}
 		h.kill(c, "client-apply-error")
 		return
@@ -1029,6 +1469,12 @@ func (h *fuzzHist) sync(c *Ctx, i int) {
 
 // purgeOnly replays the last response on the copies taken before it, GC step skipped.
 func (h *fuzzHist) purgeOnly(cl *fuzzClient) bool {
+	if os.Getenv("PBFUZZ_DUMP") == "purge" {
+		fmt.Fprintf(os.Stderr, "PURGE? pre copies %v stale %v undone %v gc %v\n", cl.preAuthor != nil, cl.staleBefore, h.undone, h.gc)
+		if cl.preAuthor != nil {
+			fmt.Fprintf(os.Stderr, " author regs: %v\n shadow regs: %v\n", regList(cl.preAuthor.Root()), regList(cl.preShadow.Root()))
+		}
+	}
 	if cl.preAuthor == nil || cl.preShadow == nil || cl.preResp == nil || len(cl.staleBefore) == 0 {
 		return false
 	}
@@ -1045,6 +1491,57 @@ func (h *fuzzHist) purgeOnly(cl *fuzzClient) bool {
 		ok = mergeTextNodes(cl.preAuthor.Marshal()) == mergeTextNodes(cl.preShadow.Marshal())
 	})
 	return !g.bad() && ok
+}
+
+// detachedTarget looks for an operation of the response whose parent element is reachable in
+// neither the author's nor the shadow's graph while exactly one of the two registries still
+// resolves it.  Only meaningful after an undo/redo happened in the history.
+func (h *fuzzHist) detachedTarget(cl *fuzzClient, pbResp *api.ChangePack) string {
+	if !h.undone {
+		return ""
+	}
+	p, err := converter.FromChangePack(proto.Clone(pbResp).(*api.ChangePack))
+	if err != nil {
+		return ""
+	}
+	ga, gs := graphView(cl.doc.RootObject()).all, graphView(cl.shadow.RootObject()).all
+	ra, rs := cl.doc.InternalDocument().Root(), cl.shadow.Root()
+	for _, ch := range p.Changes {
+		for _, op := range ch.Operations() {
+			t := op.ParentCreatedAt()
+			if t == nil {
+				continue
+			}
+			_, inA := ga[t.Key()]
+			_, inS := gs[t.Key()]
+			regA, regS := ra.FindByCreatedAt(t) != nil, rs.FindByCreatedAt(t) != nil
+			if !inA && !inS && regA != regS {
+				return fmt.Sprintf("%T addresses %s: in no graph, author registry %v, shadow registry %v", op, t.ToTestString(), regA, regS)
+			}
+		}
+	}
+	return ""
+}
+
+// purgedKeysOnly: author and shadow agree once the members whose createdAt had a stale tombstone
+// registration before the response are deleted from both.
+func (h *fuzzHist) purgedKeysOnly(cl *fuzzClient, m1, m2 string) bool {
+	if !h.gc || len(cl.staleBefore) == 0 || len(cl.staleKeys) == 0 {
+		return false
+	}
+	a, ok1 := stripKeysJSON(m1, cl.staleKeys)
+	b, ok2 := stripKeysJSON(m2, cl.staleKeys)
+	return ok1 && ok2 && a != "" && mergeTextNodes(a) == mergeTextNodes(b)
+}
+
+func regList(r *crdt.Root) []string {
+	var out []string
+	for _, p := range r.GCElementPairMap() {
+		p := p
+		out = append(out, describe(p.Elem()))
+	}
+	sort.Strings(out)
+	return out
 }
 
 // dedupOnly: the two Marshal() strings agree once every member that is a dedup counter with a
@@ -1082,16 +1579,22 @@ func (h *fuzzHist) dedupOnly(cl *fuzzClient, m1, m2 string) bool {
 func (h *fuzzHist) compareAuthor(c *Ctx, cl *fuzzClient) {
 	c.Count("oracle-run:wire-vs-direct")
 	d := cl.doc.InternalDocument()
-	if m1, m2 := d.Marshal(), cl.shadow.Marshal(); m1 != m2 {
-		if os.Getenv("PBFUZZ_DUMP") == "wire" && !h.dumped {
+	if os.Getenv("PBFUZZ_DUMP") == "ident" && !h.dumped {
+		if a, b := identities(cl.doc.RootObject()), identities(cl.shadow.RootObject()); a != b {
 			h.dumped = true
-			fmt.Fprintf(os.Stderr, "DUMP\nPACK %s\nDIRECT %s\nWIRE   %s\n", protoTextLong(h.lastPack), m1, m2)
+			fmt.Fprintf(os.Stderr, "IDENT differ after pack (firstIdentBad %d)\nPACK %s\nAUTHOR %s\nSHADOW %s\n", cl.firstIdentBad, protoTextLong(h.lastPack), a, b)
 		}
+	}
+	if m1, m2 := d.Marshal(), cl.shadow.Marshal(); m1 != m2 {
 		if mergeTextNodes(m1) == mergeTextNodes(m2) {
 			// same text, split into nodes at different places (a local edit splits at its boundaries
 			// even when it neither inserts nor deletes; the remote path does not)
 			c.Count("note:wire-vs-direct-text-node-boundaries-differ")
 			return
+		}
+		if os.Getenv("PBFUZZ_DUMP") == "wire" && !h.dumped {
+			h.dumped = true
+			fmt.Fprintf(os.Stderr, "DUMP\nPACK %s\nDIRECT %s\nWIRE   %s\n", protoTextLong(h.lastPack), m1, m2)
 		}
 		what := "wire-vs-direct-marshal"
 		switch {
@@ -1099,6 +1602,11 @@ func (h *fuzzHist) compareAuthor(c *Ctx, cl *fuzzClient) {
 			// a Set/Add/ArraySet operation carries a dedup counter as JSONElementSimple: type + 4 value
 			// bytes, no HLL registers; the receiver builds an empty sketch (value 0)
 			what = "KNOWN[c09-dedup-counter-registers-not-in-operation-value] " + what
+		case astralAsReplacement(mergeTextNodes(m1)) == astralAsReplacement(mergeTextNodes(m2)):
+			// one side holds two U+FFFD where the other holds one character outside the BMP: a text node
+			// was split inside a surrogate pair on one replica only (TextValue.Split re-encodes the halves,
+			// each lone surrogate becomes U+FFFD) - here by a position an undo/redo computed
+			what = "KNOWN[c07-text-split-inside-surrogate-pair] " + what
 		case cl.silentUndo != "":
 			// (never observed so far: reported untagged, with the evidence)
 			what = what + " [an Undo/Redo call changed the author without emitting a change: " + cl.silentUndo + "]"
@@ -1109,11 +1617,19 @@ func (h *fuzzHist) compareAuthor(c *Ctx, cl *fuzzClient) {
 			what = fmt.Sprintf("KNOWN[c15-undo-local-vs-remote-path] %s (first divergence at the undo/redo change clientSeq %d)", what, cl.firstBad)
 		case cl.firstBad != 0:
 			what = fmt.Sprintf("%s (first divergence at the ordinary local change clientSeq %d)", what, cl.firstBad)
-		case h.purgeOnly(cl):
-			// the two agree when the same response is applied to copies of both without the GC step, and
+		case cl.firstOrderBad != 0 && cl.firstOrderBadByUndo:
+			// content agreed after every local change, but what Marshal() does not show - the order of
+			// nodes inside a Text/Tree, tombstones included, and the removedAt of element tombstones -
+			// stopped agreeing exactly at a change emitted by Undo/Redo; a later operation (a peer's
+			// restore edit un-tombstones by id; a restoring Set races against removedAt; GC compares
+			// removedAt with the minimum vector) made the difference visible
+			what = fmt.Sprintf("KNOWN[c15-undo-local-vs-remote-path] %s (node order incl. tombstones / removedAt of tombstones first differed at the undo/redo change clientSeq %d)", what, cl.firstOrderBad)
+		case h.purgeOnly(cl) || h.purgedKeysOnly(cl, m1, m2):
 			// before the response a root held a tombstone registration whose createdAt belongs to a live
-			// restored instance: GarbageCollect purges by createdAt and takes the live element with it
-			// (the upstream-known "redo + peer GC deletes live key")
+			// restored instance - GarbageCollect purges by createdAt and takes the live element with it
+			// (the upstream-known "redo + peer GC deletes live key") - and either the two agree when the
+			// same response is applied to copies of both without the GC step, or they agree once exactly
+			// the object members that held those live instances are left out
 			what = "KNOWN[c15-gc-purges-element-restored-under-registered-createdat] " + what + " [stale before: " + strings.Join(cl.staleBefore, "; ") + "]"
 		}
 		h.mismatch(c, what, m1, m2)
@@ -1406,15 +1922,32 @@ func (h *fuzzHist) run(c *Ctx, steps int) {
 	}
 	for s := 0; s < steps && h.dead == ""; s++ {
 		i := r.Intn(n)
+		var before map[string]crdt.Element
+		if !h.gc {
+			before = graphView(h.clients[i].doc.RootObject()).all
+		}
+		stepKind := "update"
 		switch x := r.Intn(100); {
 		case x < 60:
 			h.update(c, i)
 		case x < 72 && (h.class == "B" || h.class == "D"):
+			stepKind = "undo/redo"
 			h.undo(c, i)
 		case x < 72:
 			h.update(c, i)
 		default:
+			stepKind = "sync"
 			h.sync(c, i)
+		}
+		if before != nil {
+			// nothing is ever purged in these histories: an element that leaves a graph was dropped
+			// by something else
+			after := graphView(h.clients[i].doc.RootObject()).all
+			for k, e := range before {
+				if _, ok := after[k]; !ok {
+					h.vanished[k] = fmt.Sprintf("%s left client%d's graph during a local %s step although nothing is purged", describe(e), i, stepKind)
+				}
+			}
 		}
 		if h.dead == "" {
 			h.observe(h.clients[i].doc.RootObject())
@@ -1470,8 +2003,12 @@ var pbStage string
 func stage2() { pbStage = "use-of-accepted-value" }
 
 // decoders over a protobuf message; each returns whether the input was accepted.
+// lastPre: the pre-state replica of the pack most recently handed to decodePack (debug aid)
+var lastPre *document.InternalDocument
+
 func decodePack(pb *api.ChangePack, pre *document.InternalDocument) func() bool {
 	return func() bool {
+		lastPre = pre
 		p, err := converter.FromChangePack(pb)
 		if err != nil {
 			return false
@@ -1867,7 +2404,18 @@ func (m *pbMut) one() {
 	}
 	acc := false
 	pbStage = ""
+	t0 := gotime.Now()
 	g := guardRun(pbTimeout, func() { acc = j.run(norm)() })
+	if el := gotime.Since(t0); el > 2*gotime.Second && os.Getenv("PBFUZZ_DUMP") == "slow" {
+		b, _ := proto.Marshal(norm)
+		pre := ""
+		if lastPre != nil {
+			if sb, err := converter.SnapshotToBytes(lastPre.RootObject(), lastPre.AllPresences()); err == nil {
+				pre = showHex(sb)
+			}
+		}
+		fmt.Fprintf(os.Stderr, "SLOW %s %v stage=%q hang=%v\nMSG %s\nPRE %s\nTEXT %s\n", j.name, el, pbStage, g.hang, showHex(b), pre, protoTextLong(norm))
+	}
 	if g.bad() {
 		fails := func(x proto.Message) bool {
 			y, _, ok := wireNormal(x)
@@ -1903,9 +2451,68 @@ func pbExec(c *Ctx, line string, st **fuzzHist, seen map[pbFinding]bool) {
 		n, _ := strconv.Atoi(t[3])
 		steps, _ := strconv.Atoi(t[4])
 		h := newHist(seed, t[2], n, t[5] == "1")
+		h.line = line
 		h.run(c, steps)
 		*st = h
 		c.Count("class:" + t[2])
+	case t[0] == "PBALL" && len(t) == 2 && *st != nil:
+		// debug aid: one change pack executed on every recorded pre-state of the current history, timed
+		b, ok := parseHex(t[1])
+		if !ok {
+			return
+		}
+		for k, ps := range (*st).seeds.packs {
+			if ps.pre == nil {
+				continue
+			}
+			pb := &api.ChangePack{}
+			if err := proto.Unmarshal(b, pb); err != nil {
+				return
+			}
+			t0 := gotime.Now()
+			acc := false
+			pbStage = ""
+			g := guardRun(1*gotime.Second, func() { acc = decodePack(pb, ps.pre)() })
+			fmt.Fprintf(os.Stderr, "PBALL pre#%d accepted=%v elapsed=%v bad=%v %s\n", k, acc, gotime.Since(t0), g.bad(), g.value)
+			if g.bad() {
+				if sb, err := converter.SnapshotToBytes(ps.pre.RootObject(), ps.pre.AllPresences()); err == nil {
+					_ = os.WriteFile(fmt.Sprintf("%s/pbfuzz_pre_%d.hex", os.TempDir(), k), []byte(showHex(sb)), 0o644)
+				}
+				break
+			}
+		}
+	case t[0] == "PBAT" && len(t) == 3:
+		// one fixed change pack executed on a replica seeded from a snapshot (corpus witnesses whose
+		// effect needs a pre-state): PBAT <snapshot hex> <change pack hex>
+		sb, ok1 := parseHex(t[1])
+		b, ok2 := parseHex(t[2])
+		if !ok1 || !ok2 {
+			return
+		}
+		pb := &api.ChangePack{}
+		if err := proto.Unmarshal(b, pb); err != nil {
+			c.Count("result:PBAT:unmarshal-reject")
+			return
+		}
+		pre, err := document.NewInternalDocumentFromSnapshot(pbDocKey, 1, 1, time.NewVersionVector(), sb)
+		if err != nil {
+			c.Count("result:PBAT:snapshot-reject")
+			return
+		}
+		m := &pbMut{c: c, r: rand.New(rand.NewSource(1)), seeds: &pbSeeds{pool: msgPool{}}, seen: seen}
+		acc := false
+		pbStage = ""
+		g := guardRun(pbTimeout, func() { acc = decodePack(pb, pre)() })
+		if g.bad() {
+			m.report("FromChangePack", g, []string{"corpus"}, pb, b, nil)
+			return
+		}
+		if acc {
+			c.Count("result:PBAT:accept")
+		} else {
+			c.Count("result:PBAT:reject")
+		}
+		c.Nontrivial()
 	case t[0] == "PB" && len(t) == 3:
 		// one fixed hostile input (corpus witnesses): PB <decoder> <hex>
 		b, ok := parseHex(t[2])
@@ -1971,16 +2578,22 @@ func runPbfuzz(c *Ctx) error {
 	c.stats.Rule = "NO MODEL STREAM: the Lean engine `pbfuzz` prints nothing and so does this engine; HIST/MUT/PB command lines exist " +
 		"only so that a trace replays without the generator (replay is exact up to Go map iteration order inside yorkie); everything is " +
 		"decided by the oracle on the real code. Trace = one random multi-client history (2-3 document.Document replicas, 12-40 steps; " +
-		"GC on in half of them - with GC off the documents keep GC enabled and receive an empty minimum vector; classes A 55% no undo/" +
-		"move, B 20% undo/redo, C 12% array moves, D 13% text style+undo - the class only steers the generator, NO classification " +
+		"GC on in half of them - with GC off the documents keep GC enabled and receive an empty minimum vector; classes A 45% no undo/" +
+		"move, E 10% tree edits that split (level 1/2) and insert content in one operation + edits inside the split-off element, " +
+		"B 20% undo/redo, C 12% array moves, D 13% text style+undo - the class only steers the generator, NO classification " +
 		"consults it; every pack through ToChangePack/Marshal/Unmarshal/FromChangePack). Oracles: each author's document = its shadow " +
-		"fed only from the wire, checked after every single local change (content, presences); server replica fed from the wire = " +
+		"fed only from the wire, checked after every single local change (content, presences, and - for changes not emitted by " +
+		"undo/redo - what Marshal() does not show: ids and order of the nodes inside Text/Tree with tombstones, removedAt of " +
+		"element tombstones); server replica fed from the wire = " +
 		"replica fed from stored ChangeInfo through the real BSON registry (content, GarbageLen, version vector, lamport, presences, " +
 		"change ids); snapshot round trip judged item by item on three views - L the live root's registrations, G its object graph, " +
 		"D the decoded graph - plus the two encodings (proto.Equal after canonical ordering) and Marshal(); class A without GC: " +
 		"replica seeded from a mid-log snapshot = replayed replica after the rest of the log. Every differing item must satisfy the " +
 		"evidence predicate of a listed finding (known_findings.json, field `predicate`); anything else is written untagged = " +
-		"violation. Then a malformed stream of hostile inputs derived from that history's own messages (structural protobuf mutation " +
+		"violation. Evidence is collected apart from the oracles: an observer replica executes the log one OPERATION at a time, " +
+		"every response and every pending local change is executed operation by operation on a copy of the receiving client's " +
+		"shadow, the registered GC pairs are read out of gcNodePairMap, and after every local change the author's content, " +
+		"element identities and node order inside Text/Tree (tombstones included) are compared with its wire shadow. Then a malformed stream of hostile inputs derived from that history's own messages (structural protobuf mutation " +
 		"normalised through the wire + raw byte mutation) fed to FromChangePack, BytesToSnapshot, BytesToObject/Array/Tree, " +
 		"FromOperations, ChangeInfo.ToChange (also from BSON documents with damaged payloads), FromVersionVector, FromPresenceChange/" +
 		"PresenceChangeFromBytes, FromTreeNodes under recover()+timeout; stage 2 uses what a decoder accepted the way the server would " +
@@ -2014,8 +2627,10 @@ func runPbfuzz(c *Ctx) error {
 		c.Trace(fmt.Sprintf("pbfuzz-%d-%d", c.Seed, i))
 		class := "A"
 		switch x := r.Intn(100); {
-		case x < 55:
+		case x < 45:
 			class = "A"
+		case x < 55:
+			class = "E"
 		case x < 75:
 			class = "B"
 		case x < 87:
@@ -2027,6 +2642,9 @@ func runPbfuzz(c *Ctx) error {
 		c.Cmd("%s", l)
 		pbExec(c, l, &st, seen)
 		l = fmt.Sprintf("MUT %d %d", r.Int63n(1<<40), nMut)
+		if os.Getenv("PBFUZZ_NOMUT") != "" {
+			continue // statistics runs: histories only (the PRNG stream stays the same)
+		}
 		c.Cmd("%s", l)
 		pbExec(c, l, &st, seen)
 	}
